@@ -1729,7 +1729,7 @@ func (sq *Queue) TryAllocate(iterator func() NodeIterator, fullIterator func() N
 				// if the app is still in Accepted state we're allocating placeholders.
 				// we want to count these apps as running
 				if app.IsAccepted() {
-					sq.setAllocatingAccepted(app.ApplicationID)
+					sq.setAllocatingAcceptedChecked(app.ApplicationID)
 				}
 				return result
 			}
@@ -1880,7 +1880,7 @@ func (sq *Queue) TryReservedAllocate(iterator func() NodeIterator) *AllocationRe
 					// if the app is still in Accepted state we're allocating placeholders.
 					// we want to count these apps as running
 					if app.IsAccepted() {
-						sq.setAllocatingAccepted(app.ApplicationID)
+						sq.setAllocatingAcceptedChecked(app.ApplicationID)
 					}
 					return result
 				}
@@ -2081,6 +2081,18 @@ func (sq *Queue) setAllocatingAccepted(appID string) {
 	sq.Lock()
 	defer sq.Unlock()
 	sq.allocatingAcceptedApps[appID] = true
+}
+
+// setAllocatingAcceptedChecked marks the application as allocating in this leaf queue and its parents, unless the
+// application is no longer part of the queue. The RM event handler can remove the application while the scheduling
+// cycle allocates for it: the removal clears the mark, if that happened before the mark was set the mark would stay
+// behind and count as a running application for ever. Mark first and verify after: whichever order the removal and
+// this call run in, the mark does not survive the removal.
+func (sq *Queue) setAllocatingAcceptedChecked(appID string) {
+	sq.setAllocatingAccepted(appID)
+	if !sq.appExists(appID) {
+		sq.clearAllocatingAccepted(appID)
+	}
 }
 
 // clearAllocatingAccepted removes the application from the list of accepted applications that are allocating.
